@@ -124,9 +124,9 @@ PROPS["C04"] = dict(
     level="other",
     explanation="Lockset analysis with solver-decided feasibility: every ordered pair of the 12 Broker API calls is executed symbolically as two concurrent regions from a common pre-state; the executor logs every load/store of every heap cell reachable from shared objects together with the set of sync locks held (mode R/W); two accesses to overlapping cells, at least one a write, with no common lock held exclusively by one side, on a feasible pair of paths = race candidate, which is then replayed natively under go test -race.",
     jobs=[dict(harness=BROKER_H, entries=r"^H_C04_api_pairs$", params=dict(quick={}, thorough={}), shards=dict(quick=16, thorough=16)),
-          dict(harness=BROKER_H, entries=r"^H_C04_mutators_interleaved$|^H_C04_send_vs_registration$|^H_C07_send_vs_overwrite$", params=dict(quick={}, thorough={}),
+          dict(harness=BROKER_H, entries=r"^H_C04_mutators_interleaved$|^H_C04_send_vs_registration$|^H_C07_send_vs_overwrite$|^H_C04_remove_vs_register$", params=dict(quick={}, thorough={}),
                shards=dict(quick=8, thorough=16), maxswitches=dict(quick=3, thorough=5), instrument_locks=True)],
-    must_reach=["C04.pairs.end", "C04.interleaved.end", "C04.send-vs-registration.end", "C07.overwrite-vs-send.end"],
+    must_reach=["C04.pairs.end", "C04.interleaved.end", "C04.send-vs-registration.end", "C07.overwrite-vs-send.end", "C04.remove-vs-register.end"],
     bounds=dict(quick="all 12x12 ordered API pairs on a registry with 2 nodes, <=2 pipelines of one type, a second type; one Send's internal goroutines on one schedule", thorough="same"),
     assumptions=["a data race is a pairwise notion: pairwise freedom from a common pre-state; happens-before only through sync locks, go statements and channel operations of the library itself", "StopTimeAt (test helper) excluded"],
     trusted_base=COMMON_TRUST,
